@@ -221,10 +221,10 @@ func Check(c Case) *kit.Violation {
 	}
 
 	// the model
-	pos := 0              // bytes handed to the caller so far
-	termSeen := false     // the terminal condition has been handed to the caller
-	closed := false       // the caller closed the body
-	wrapped := false      // a probe had to look at the stream
+	pos := 0          // bytes handed to the caller so far
+	termSeen := false // the terminal condition has been handed to the caller
+	closed := false   // the caller closed the body
+	wrapped := false  // a probe had to look at the stream
 	wrappedAtClose := false
 	probes := 0
 
@@ -247,7 +247,8 @@ func Check(c Case) *kit.Violation {
 			return kit.Failf("%s: Read(%d) reported %d bytes (%s)", what, n, k, hist(i))
 		}
 		if closed {
-			if wrappedAtClose && (k != 0 || rerr == nil) {
+			// a zero-length read that reports (0, nil) hands out nothing stale: only reads that ask for bytes must fail
+			if wrappedAtClose && (k != 0 || (rerr == nil && n > 0)) {
 				return kit.Failf("%s: read after close returned %d bytes, err=%v; it must fail (%s)", what, k, rerr, hist(i))
 			}
 			return nil
